@@ -140,26 +140,74 @@ let run_ipoe (rep : bool) (implline : string) (toks : string list) : string =
          | _ -> ());
         outs in
     let show outs =
-        let os = List.sort compare (List.map (fun ((i, g), o) ->
-          string_of_int (int_of_nat i) ^ "." ^ string_of_int (int_of_nat g) ^ show_iout o) outs) in
+        (* IA_PD (the harness configures a PD pool that is never exhausted and every client message asks for IA_PD):
+           ResolveV6 / the provider / handleDHCPv6Reply / onSessionCreated / handleDHCPv6Release treat the delegated
+           prefix exactly alongside the IA_NA address, so the dataplane prefix call accompanies every IPv6 address
+           call.  The Coq model has no separate PD state; this derived token is what is compared, and the monitors
+           (sb6+ and sbpd+ are both service outputs) gate it. *)
+        let outs = List.concat_map (fun ((i, g), o) ->
+          let w = string_of_int (int_of_nat i) ^ "." ^ string_of_int (int_of_nat g) in
+          match o with
+          | ISb6 b -> [w ^ show_iout o; w ^ (if b then "sbpd+" else "sbpd-")]
+          | _ -> [w ^ show_iout o]) outs in
+        let os = List.sort compare outs in
         let is_life t = String.length t >= 5 && String.sub t (String.length t - 5) 5 = "lifeA" in
         let rec dedup = function a :: (b :: _ as r) when a = b && is_life a -> dedup r | a :: r -> a :: dedup r | [] -> [] in
         let os = dedup os in
         String.concat "," os ^ "|" ^ String.concat "," (List.map show_islot !st.isl) ^ "|" ^
         string_of_int (List.length !st.p4.pfree) ^ "/" ^ string_of_int (List.length !st.p6.pfree) in
-    (* Outside the modelled domain: when ResolveV6 fails (IA_NA pool exhausted, or the context's address was taken
-       by another session after a release) the local DHCPv6 provider allocates on its own, bypassing the registry.
-       The model marks that step EXH6; from there on the implementation's own text is echoed (its monitor verdict,
-       computed by the harness on the real trace, stays in the line), i.e. the rest of the case is not compared. *)
+    (* Outside the modelled domain: when ResolveV6 fails (the context's IA_NA address was taken by another session
+       after a release, or the pool is exhausted) the local DHCPv6 provider allocates on its own, bypassing the
+       registry (recorded by C02, notes/C02.md).  The model marks that step EXH6 and stops predicting outputs and state.
+       The gap is bounded at the property level: from there on the EXTRACTED COQ MONITOR (imon_in / imon_outs) is run on
+       the implementation's own outputs for the rest of the case — an answer counts for the slot's latest attempt seen
+       in the trace — and its verdict, not the harness's, ends the line.  The step texts are echoed. *)
     let impl_steps = Array.of_list (Str.split (Str.regexp_string " ; ") implline) in
     let giveup = ref false in
     let idx = ref (-1) in
+    let maxgen = Array.make 3 0 in
+    let iout_of_token (t : string) : iout option =
+      (match t with
+       | "Q" -> Some IQ | "OFFER" -> Some IOffer | "ACK" -> Some IAck | "ADV" -> Some IAdv | "REPLY" -> Some IReply
+       | "RREPLY" -> Some IRelReply | "sbadd" -> Some ISbAdd | "sbdel" -> Some ISbDel | "sb4+" -> Some (ISb4 true)
+       | "sb4-" -> Some (ISb4 false) | "sb6+" | "sbpd+" -> Some (ISb6 true) | "sb6-" | "sbpd-" -> Some (ISb6 false)
+       | "lifeA" -> Some ILifeA | "lifeR" -> Some ILifeR | "prog" -> Some IProg | _ -> None) in
+    let parse_impl_outs (txt : string) : (owner * iout) list =
+      let outs = (match String.index_opt txt '|' with Some k -> String.sub txt 0 k | None -> txt) in
+      List.filter_map (fun tok ->
+        (* <slot>.<gen><TOKEN> *)
+        let n = String.length tok in
+        let j = ref 0 in
+        while !j < n && (tok.[!j] = '.' || (tok.[!j] >= '0' && tok.[!j] <= '9')) do incr j done;
+        (match String.split_on_char '.' (String.sub tok 0 !j) with
+         | [a; b] when a <> "" && b <> "" ->
+           let i = int_of_string a and g = int_of_string b in
+           if i >= 0 && i < 3 && g > maxgen.(i) then maxgen.(i) <- g;
+           (match iout_of_token (String.sub tok !j (n - !j)) with
+            | Some o -> Some ((nat_of_int i, nat_of_int g), o)
+            | None -> Some ((nat_of_int i, nat_of_int g), IExh6))   (* unknown token: not a service output *)
+         | _ -> None)) (if outs = "" then [] else String.split_on_char ',' outs) in
+    let judge_impl (evl : ievent list) : unit =
+      (* run the Coq monitor on the implementation's outputs of this step *)
+      let txt = if !idx < Array.length impl_steps then impl_steps.(!idx) else "" in
+      let outs = parse_impl_outs txt in
+      (* outputs first reveal new attempts (a Q of a new generation) — an answer is for the latest attempt *)
+      List.iter (fun e ->
+        let cur = (match e with IeAAA (i, RCur, _) -> (i, nat_of_int maxgen.(int_of_nat i)) | _ -> (O, O)) in
+        mon := imon_in e cur !mon) evl;
+      (match imon_outs outs !mon with Some m -> mon := m | None -> viol := true) in
     let steps = List.map (fun tok ->
       incr idx;
-      let echo () = if !idx < Array.length impl_steps then impl_steps.(!idx) else "EXH6" in
-      if !giveup then echo () else
+      let mark = (try Sys.getenv "C03_MARK_GAP" = "1" with Not_found -> false) in   (* measurement only *)
+      let echo () = (if mark then "~" else "") ^ (if !idx < Array.length impl_steps then impl_steps.(!idx) else "EXH6") in
+      let evl = (if String.length tok > 2 && String.sub tok 0 2 = "P:" then
+                   List.filter_map ievent_of (String.split_on_char '&' (String.sub tok 2 (String.length tok - 2)))
+                 else List.filter_map ievent_of [tok]) in
+      if !giveup then (judge_impl evl; echo ()) else
       let has_exh l = List.exists (fun (_, o) -> o = IExh6) l in
-      let show outs = if has_exh outs then (giveup := true; echo ()) else show outs in
+      let show outs = if has_exh outs then (giveup := true; echo ()) else
+        (List.iter (fun ((i, g), _) -> let i = int_of_nat i and g = int_of_nat g in if i < 3 && g > maxgen.(i) then maxgen.(i) <- g) outs;
+         show outs) in
       (* P:<e1>&<e2> — the implementation runs e2 while e1 is held inside the dataplane add; handlers are atomic
          in the model (the test-and-clear of AAAInFlight is one critical section), so this is e1 then e2 *)
       if String.length tok > 2 && String.sub tok 0 2 = "P:" then
@@ -172,8 +220,7 @@ let run_ipoe (rep : bool) (implline : string) (toks : string list) : string =
       match ievent_of tok with
       | None -> "badev:" ^ tok
       | Some e -> show (one e)) evs in
-    let monres = if !giveup && Array.length impl_steps > 0 then impl_steps.(Array.length impl_steps - 1)
-                 else "MON:" ^ (if !viol then "VIOLATION" else "ok") in
+    let monres = "MON:" ^ (if !viol then "VIOLATION" else "ok") in
     String.concat " ; " steps ^ " ; " ^ monres
   | _ -> "badcase"
 
